@@ -3,7 +3,8 @@ import DymVerif.Model.Incent
 /-
   Driver/C15 — line-protocol driver of M-Incent.  One op per line; the observation is the op's
   outcome class followed by the canonical state (`ok | t=… P=… G=… S=… U=… A=… F=… B=…`).
-  `lock` / `unlock` / `xferowner` lines are not model ops (answered with `harness-only`).
+  `lock` / `unlock` / `xferowner` / `delegate` / `vote` / `revoke` lines are not model ops (answered with
+  `harness-only`); the sponsorship distribution they produce reaches the model through a `distribution` line.
 -/
 namespace DymVerif.Driver.C15
 open DymVerif DymVerif.Incent DymVerif.Driver
@@ -33,6 +34,9 @@ def showCoins (nd : Nat) (c : Coins) : String :=
 
 def showIds (l : List Nat) : String := if l.isEmpty then "-" else ",".intercalate (l.map toString)
 
+def showRecs (rs : List Rec) : String :=
+  if rs.isEmpty then "-" else "+".intercalate (rs.map (fun r => s!"{r.gauge}*{r.weight}"))
+
 def showPtr (p : Pointer) : String :=
   if p.streamId = maxU64 && p.gaugeId = maxU64 then "L" else s!"{p.streamId}/{p.gaugeId}"
 
@@ -44,7 +48,7 @@ def showState (d : DState) : String :=
   let g := " ".intercalate (s.gauges.map (fun g =>
     s!"{g.id}:{showStatus g.status}:{g.filled}:{showCoins d.nd g.coins}:{showCoins d.nd g.distributed}"))
   let st := " ".intercalate (s.streams.map (fun x =>
-    s!"{x.id}:{x.filled}/{x.numEpochs}:{showCoins d.nd x.coins}:{showCoins d.nd x.distributed}:{showCoins d.nd x.epochCoins}:{if x.ecEmpty then "E" else "N"}"))
+    s!"{x.id}:{x.filled}/{x.numEpochs}:{showCoins d.nd x.coins}:{showCoins d.nd x.distributed}:{showCoins d.nd x.epochCoins}:{if x.ecEmpty then "E" else "N"}:{if x.sponsored then "s" else "n"}:{x.totalWeight}:{showRecs x.recs}"))
   -- fresh addresses (200.., rollapp owners without an account of their own): ascending, non-zero balances only
   let fresh := ((s.bank.filter (fun p => decide (p.1 ≥ 200) && !p.2.isZero)).map (·.1)).mergeSort (· ≤ ·)
   let b := " ".intercalate (((List.range d.na) ++ [streamerAddr, incAddr] ++ fresh).map (fun a => s!"{a}:{showCoins d.nd (s.bank.get a)}"))
@@ -63,7 +67,11 @@ def parseOp (f : List String) : Option Op :=
   | ["mkgauge", o, p, dn, du, c, st, n] =>
       some (.createGauge (nat! o) (p = "1") (nat! dn) (nat! du) (decide (nat! dn < 2)) (coins! c) (nat! st) (nat! n))
   | ["addgauge", o, g, c] => some (.addToGauge (nat! o) (nat! g) (coins! c))
-  | ["mkstream", c, rs, st, e, n] => some (.createStream (coins! c) (recs! rs) (nat! st) (nat! e) (nat! n))
+  | ["mkstream", c, rs, st, e, n] => some (.createStream false (coins! c) (recs! rs) (nat! st) (nat! e) (nat! n))
+  | ["mkstream", c, rs, st, e, n, "s"] => some (.createStream true (coins! c) (recs! rs) (nat! st) (nat! e) (nat! n))
+  | ["update", id, rs] => some (.updateDistr (nat! id) (recs! rs))
+  | ["distribution", rs] => some (.distribution (recs! rs))
+  | ["poolgauges", dn, hs] => some (.poolGauges (nat! dn) (hs = "1"))
   | ["term", id] => some (.terminateStream (nat! id))
   | ["replace", id, rs] => some (.replaceDistr (nat! id) (recs! rs))
   | _ => none
@@ -75,7 +83,7 @@ def step (d : DState) (f : List String) : DState × String :=
     (d', "ok | " ++ showState d')
   -- harness-only lines: executed on the real lockup / rollapp module only (their effect reaches the model
   -- through the `locks` / `rollapp` line that follows)
-  | "lock" :: _ | "unlock" :: _ | "xferowner" :: _ => (d, "harness-only")
+  | "lock" :: _ | "unlock" :: _ | "xferowner" :: _ | "delegate" :: _ | "vote" :: _ | "revoke" :: _ => (d, "harness-only")
   | _ =>
     match parseOp f with
     | none => (d, "bad-op")
